@@ -221,6 +221,23 @@ Theorem scope_rules_roundtrip : forall (V : Type) (ltb veqb : V -> V -> bool) (m
     nfp V t' = nfp V t.
 Proof. exact scope_roundtrip. Qed.
 
+(** a rule refused with ValueError (one of its scopes — not necessarily the first one
+    visited — ends up with lower > upper) assigns NOTHING, and a history in which the
+    caller catches the error and carries on equals the history without that rule *)
+Theorem scope_rejected_rule_all_or_nothing : forall (V : Type) (ltb veqb : V -> V -> bool) (mean : list V -> V) (L U : V)
+    (r : srule V) (t1 t2 : table V) c s nid,
+  covers (ru_scope r) c = true ->
+  new_stg V ltb veqb mean L U r (nid + length (filter (fun cs => covers (ru_scope r) (fst cs)) t1)) [s] = None ->
+  assign_indep V ltb veqb mean L U r (t1 ++ (c, s) :: t2) nid = None.
+Proof. exact assign_indep_all_or_nothing. Qed.
+
+Theorem scope_rejected_rule_no_trace : forall (V : Type) (ltb veqb : V -> V -> bool) (mean : list V -> V) (L U : V)
+    (indep_default : bool) rs1 r rs2 tn,
+  assign_rule V ltb veqb mean L U indep_default r (assign_rules_tol V ltb veqb mean L U indep_default rs1 tn) = None ->
+  assign_rules_tol V ltb veqb mean L U indep_default (rs1 ++ r :: rs2) tn =
+  assign_rules_tol V ltb veqb mean L U indep_default (rs1 ++ rs2) tn.
+Proof. exact rejected_rule_no_trace. Qed.
+
 (** ... and it FAILS for a tie group that is not a box: a parameter tied over
     2 edges x 2 bins, then one corner set separately — the exported rule of the
     remainder covers the corner too and is applied after the corner's rule: the
